@@ -37,10 +37,24 @@ fn swap_case(s: &str) -> String {
     s.chars().map(|c| if c.is_ascii() { ucd::counterpart(c).unwrap_or(c) } else { c }).collect()
 }
 
+/// literals of 8 to 40 characters: over forty distinct characters (no character recurs) or over three (self-overlapping)
+fn long_part() -> BoxedStrategy<StrCase> {
+    const POOL: &[char] = &['a', 'b', 'c', 'd', 'e', 'f', 'g', 'h', 'i', 'j', '(', ')', '[', ']', '{', '}', '\\', '$', '^', '|', '?', '*', '+', '.', 'A', 'B', 'C', 'D', '0', '1', '2', '3', '-', ' ', 'é', '𐐀', 'k', 'l', 'm', 'n'];
+    let pat = (8usize..=40, any::<u16>(), any::<bool>()).prop_map(|(n, r, distinct)| {
+        let r = r as usize;
+        (0..n).map(|k| if distinct { POOL[(r + k) % POOL.len()] } else { ['a', '(', 'b'][(r / (k + 1) + k * (1 + r % 2)) % 3] }).collect::<String>()
+    });
+    part_with(pat.boxed(), "long-literal")
+}
+
 fn part() -> BoxedStrategy<StrCase> {
     // unbalanced brackets over-weighted: a second alphabet of brackets only
     const BR: &[char] = &['(', ')', '[', ']', '{', '}', '\\', '(', ')', '$', '^', '|', '?', '*', '+', '.'];
     let pat = prop_oneof![3 => idx_string(META, 6), 2 => idx_string(BR, 4), 1 => (idx_string(BR, 2), idx_string(META, 3)).prop_map(|(a, b)| format!("{a}{b}"))];
+    part_with(pat.boxed(), "literal")
+}
+
+fn part_with(pat: BoxedStrategy<String>, tag: &'static str) -> BoxedStrategy<StrCase> {
     let piece = prop_oneof![3 => Just(0u8), 2 => Just(1u8), 2 => Just(2u8), 3 => Just(3u8)];
     (pat, 0..QFLAGS.len(), prop::collection::vec(prop::collection::vec((piece, any::<u16>()), 0..5), 4..=4), prop::collection::vec(idx_string(REPCH, 4), 2..=2))
         .prop_map(|(pattern, fi, pieces, reps)| {
@@ -66,7 +80,7 @@ fn part() -> BoxedStrategy<StrCase> {
                     s
                 })
                 .collect();
-            StrCase { dialect: Dialect::XPath, pattern, flags: QFLAGS[fi].to_string(), inputs, replacements: reps, tag: "literal".into() }
+            StrCase { dialect: Dialect::XPath, pattern, flags: QFLAGS[fi].to_string(), inputs, replacements: reps, tag: tag.into() }
         })
         .boxed()
 }
@@ -202,7 +216,10 @@ impl Prop for C13 {
         "C13"
     }
     fn parts(&self, tier: Tier) -> Vec<Part<StrCase>> {
-        vec![Part { name: "literal".into(), strategy: part(), cases: tier.pick(800_000, 10_000_000) }]
+        vec![
+            Part { name: "literal".into(), strategy: part(), cases: tier.pick(800_000, 10_000_000) },
+            Part { name: "long-literal".into(), strategy: long_part(), cases: tier.pick(100_000, 1_500_000) },
+        ]
     }
     fn check(&self, case: &StrCase, ctx: &mut Ctx) -> Verdict {
         check_literal(case, ctx)
